@@ -42,6 +42,7 @@ M18 = {
     "own-default": (sub(INIT, "\trootConf.Packages = map", "\tif len(moduleName) > 20 {\n\t\trootConf.Formatter = addr(\"gofmt\")\n\t}\n\trootConf.Packages = map"), 1),
     "loader-default-diverges": (sub(CONF, "\tk, err := NewDefaultKoanf(ctx)\n\tif err != nil {\n\t\treturn nil, nil, err\n\t}\n\tvar rootConfig",
                                     "\tk, err := NewDefaultKoanf(ctx)\n\tif err != nil {\n\t\treturn nil, nil, err\n\t}\n\t_ = k.Set(\"force-file-write\", true)\n\tvar rootConfig"), 0),
+    "env-leaks-into-written-defaults": (sub(INIT, "\trootConf.Packages = map", "\tif v := os.Getenv(\"MOCKERY_LOG_LEVEL\"); v != \"\" {\n\t\trootConf.LogLevel = &v\n\t}\n\trootConf.Packages = map"), 1),
     # legitimate refactor: explicit existence check instead of O_EXCL -- must NOT be flagged
     "refactor-stat-check": (sub(INIT, "\tf, err := outFile.OpenFile(os.O_RDWR | os.O_CREATE | os.O_EXCL)\n",
                                 "\tif _, serr := os.Lstat(filename); serr == nil {\n\t\tlog.Error().Msg(\"config file already exists\")\n\t\tos.Exit(1)\n\t}\n\tf, err := outFile.OpenFile(os.O_RDWR | os.O_CREATE | os.O_TRUNC)\n"), 0),
@@ -74,6 +75,10 @@ M19 = {
     # lenient decoding is not forbidden by the statement (only "never crashes on a decodable v2 file")
     "legit-accepts-unknown-keys": (sub(MIG, "\tdecoder.KnownFields(true)\n", "\tdecoder.KnownFields(false)\n"), 0),
     "lowercase-iface-names": (sub(MIG, "v3PkgConfig.Interfaces[interfaceName] = &v3InterfaceConfig", "v3PkgConfig.Interfaces[strings.TrimSpace(interfaceName)] = &v3InterfaceConfig"), 1),
+    "clean-dir": (multi(sub(MIG, "\tv3.Dir = v2Config.Dir\n", "\tif v2Config.Dir != nil {\n\t\tv3.Dir = addr(filepath.Clean(*v2Config.Dir))\n\t}\n"),
+                        sub(MIG, '\t"os"\n', '\t"os"\n\t"path/filepath"\n')), 1),
+    "lowercase-outpkg": (sub(MIG, "\tv3.PkgName = v2Config.Outpkg\n", "\tif v2Config.Outpkg != nil {\n\t\tv3.PkgName = addr(strings.ToLower(*v2Config.Outpkg))\n\t}\n"), 1),
+    "outfile-next-to-config": (sub(MIG, "\toutFile := pathlib.NewPath(v3ConfPath)\n", "\toutFile := pathlib.NewPath(v3ConfPath)\n\tif !outFile.IsAbsolute() {\n\t\toutFile = confPath.Parent().Join(v3ConfPath)\n\t}\n"), 1),
     # legitimate changes: must NOT be flagged
     "legit-drop-with-expecter": (sub(MIG, "\t\tv3.TemplateData[\"with-expecter\"] = *v2Config.WithExpecter\n", ""), 0),
     "legit-carry-filename": (sub(MIG, "\tv3.Dir = v2Config.Dir\n", "\tv3.Dir = v2Config.Dir\n\tv3.FileName = v2Config.FileName\n"), 0),
